@@ -50,12 +50,15 @@ let svc_table = Some [ (bytes_of_text svc_name, [bytes_of_text "Echo"; bytes_of_
 let mk_call c r d meth req : call =
   { c_tag = nat_of_int c; c_resp = (r = "1"); c_done = (d = "1"); c_svc = bytes_of_text svc_name;
     c_meth = bytes_of_text meth; c_req = req }
+(* obs=1 in the case header: the machine without the CallMethod precondition (C19_Model.step_code);
+   otherwise C19_Model.step, which rejects a call made with response == NULL *)
+let lax = ref false
 (* run labels; after a request dispatched to Echo the service answers at once (user code of the test) *)
 let rec run_labels (s: state) (ls: label list) : (state * event list) option =
   match ls with
   | [] -> Some (s, [])
   | l :: r ->
-    (match step s l with
+    (match (if !lax then step_code s l else step s l) with
      | None -> None
      | Some (s', ev) ->
         let extra = List.concat (List.map (function
@@ -73,6 +76,7 @@ let () =
     | [] -> ()
     | "case" :: id :: rest ->
         let svc = List.mem "svc=1" rest in
+        lax := List.mem "obs=1" rest;
         st := init (if svc then svc_table else None);
         leaked := [];
         Printf.printf "case %s services=%s\n" id (if svc then svc_name ^ ":Echo+Defer" else "NULL"); flush stdout
